@@ -80,6 +80,10 @@ private:
         uint8_t bit_depth = static_cast<uint8_t>( num_channels<View>::value * 8 );
 
         // write the TGA header
+        // the header stores the dimensions in 16 bits
+        io_error_if( view.width() > 65535 || view.height() > 65535
+                   , "targa: image dimensions exceed the format's limit of 65535." );
+
         this->_io_dev.write_uint8( 0 ); // offset
         this->_io_dev.write_uint8( targa_color_map_type::_rgb );
         this->_io_dev.write_uint8( targa_image_type::_rgb );
